@@ -70,6 +70,19 @@ def toStr (x : F64) : String :=
 /-- `x < k` for a natural `k`, exactly (this is `x < (k as f64)` whenever `k < 2^53`, where the conversion is exact) -/
 def ltNat (x : F64) (k : Nat) : Bool := x.toFrac.1 < k * x.toFrac.2
 
+/-- `x as u64` / `x as i64` for non-negative finite `x`: truncation -/
+def toNatFloor (x : F64) : Nat :=
+  let (n, d) := x.toFrac
+  n / d
+
+/-- `x.floor()` as a float -/
+def floor (x : F64) : F64 := ofNat x.toNatFloor
+
+/-- `utils::next_after` for positive `x`: the next representable double above -/
+def nextAfter (x : F64) : F64 :=
+  if x.m = 0 then x
+  else if x.m + 1 = 2 ^ 53 then ⟨2 ^ 52, x.e + 1⟩ else ⟨x.m + 1, x.e⟩
+
 def le (a b : F64) : Bool :=
   let (an, ad) := a.toFrac
   let (bn, bd) := b.toFrac
